@@ -35,7 +35,11 @@ def cons(rng, c, plain=False):
     toks = [n for n, on in zip(("dx", "dy", "rz"), c) if on]
     if plain:
         return "{ " + "".join(t + " " for t in toks) + "}"
-    style = rng.randrange(4)
+    style = rng.randrange(6)
+    if style == 4:
+        return "{\t" + " \t".join(toks) + ("\t" if toks else "") + "}"
+    if style == 5:
+        return "{" + "\t".join(toks) + " }"
     if style == 0:
         return "{" + " ".join(toks) + "}"
     if style == 1:
